@@ -212,16 +212,15 @@ def _predicate_body(fi: FuncInfo) -> Optional[List[Tuple[List[Tuple[ast.AST, boo
                 from .cfg import facts_false, facts_true
 
                 s = ast.If(test=sub(s.test), body=s.body, orelse=s.orelse)
-                t_done = walk(s.body, conds + facts_true(s.test))
-                e_done = walk(s.orelse, conds + facts_false(s.test)) if s.orelse else False
-                rest = stmts[i + 1:]
-                if t_done and e_done:
-                    return True
-                if t_done:
-                    return walk(rest, conds + facts_false(s.test)) if not s.orelse else False
-                if e_done:
-                    return walk(rest, conds + facts_true(s.test))
-                return None
+                rest = list(stmts[i + 1:])
+                # each branch continues with what follows the if (a branch that does not return falls through)
+                t_done = walk(list(s.body) + rest, conds + facts_true(s.test))
+                if t_done is None:
+                    return None
+                e_done = walk(list(s.orelse) + rest, conds + facts_false(s.test))
+                if e_done is None:
+                    return None
+                return bool(t_done and e_done)
             return None  # anything else: not a simple predicate
         return False
 
@@ -255,6 +254,33 @@ def expand_atoms(fa: FuncAnalysis, atoms: List[Tuple[ast.AST, bool]], depth: int
                 value = None
                 if len(defs) == 1:
                     value = defs[0].value
+                if not defs:
+                    # flag, value = helper(args): the flag is one component of what a small package helper returns; when
+                    # exactly one of its returns has that component true (false), the conditions of that return hold
+                    tdefs = [(n, i_) for n in _own(fa.fi) if isinstance(n, ast.Assign) and len(n.targets) == 1 and isinstance(n.targets[0], ast.Tuple) for i_, e_ in enumerate(n.targets[0].elts) if isinstance(e_, ast.Name) and e_.id == a.id]
+                    if len(tdefs) == 1 and isinstance(tdefs[0][0].value, ast.Call) and not tdefs[0][0].value.keywords:
+                        call_, comp = tdefs[0][0].value, tdefs[0][1]
+                        callee_ = None
+                        skip_ = 0
+                        if isinstance(call_.func, ast.Name):
+                            tgt_ = m.lookup_target(m.resolve_dotted(fa.fi.module, fa.fi, call_.func.id))
+                            callee_ = tgt_ if isinstance(tgt_, FuncInfo) else None
+                        elif isinstance(call_.func, ast.Attribute) and isinstance(call_.func.value, ast.Name) and fa.fi.cls is not None and fa.fi.pos_params and call_.func.value.id == fa.fi.pos_params[0]:
+                            callee_ = m.find_method(fa.fi.cls, call_.func.attr)
+                            skip_ = 0 if (callee_ is not None and "staticmethod" in callee_.decorators) else 1
+                        paths_ = _predicate_body(callee_) if callee_ is not None and callee_ is not fa.fi and len(callee_.node.body) <= 12 else None
+                        if paths_ and all(isinstance(r_, ast.Tuple) and comp < len(r_.elts) and isinstance(r_.elts[comp], ast.Constant) for _c, r_ in paths_) and len(callee_.pos_params[skip_:]) == len(call_.args):
+                            sel = [(c_, r_) for c_, r_ in paths_ if bool(r_.elts[comp].value) == pol]
+                            if len(sel) == 1:
+                                mapping_ = dict(zip(callee_.pos_params[skip_:], call_.args))
+                                new = []
+                                for x, p in sel[0][0]:
+                                    x2 = _Subst({k: clone_ast(v) for k, v in mapping_.items()}).visit(clone_ast(x))
+                                    _attach(x2, call_)
+                                    new.append(norm_atom(x2, p))
+                                out += new
+                                nxt += new
+                    continue
                 elif len(defs) > 1 and fa.cfg.has_node(a):
                     # several assignments (flag = A; flag = flag or B): the one that reaches this test
                     rd = fa._rd_in.get(fa.cfg.node_of(a), {}).get(a.id)
@@ -897,20 +923,48 @@ def site_owner(model: Model, ctx: TermCtx, fi: FuncInfo, callee_name: str):
     g = owners[0]
     if g is fi:
         return g, {}
-    sites = [(c_, call, skip) for c_, call, skip in call_sites_of(model, g) if c_ is fi]
-    if len(sites) != 1:
-        raise AnalysisError(f"{g.name} is not called exactly once, directly, from {fi.name}")
-    _c, call, skip = sites[0]
-    fa = ctx.analysis(fi)
-    inv = {}
-    for p_, a in zip(g.pos_params[skip:], call.args):
-        inv[strip_sites(fa.term_of(a))] = ("param", p_)
-    for k in call.keywords:
-        if k.arg:
-            inv[strip_sites(fa.term_of(k.value))] = ("param", k.arg)
-    if skip and fi.pos_params:
-        inv[("param", fi.pos_params[0])] = ("param", g.pos_params[0])
-    return g, inv
+    def hop(caller: FuncInfo, callee: FuncInfo):
+        """{term in caller: parameter of callee} for the one call of callee in caller"""
+        ss = [(c_, call, skip) for c_, call, skip in call_sites_of(model, callee) if c_ is caller]
+        if len(ss) != 1:
+            return None
+        _c, call, skip = ss[0]
+        fa = ctx.analysis(caller)
+        inv_ = {}
+        for p_, a in zip(callee.pos_params[skip:], call.args):
+            inv_[strip_sites(fa.term_of(a))] = ("param", p_)
+        for k in call.keywords:
+            if k.arg:
+                inv_[strip_sites(fa.term_of(k.value))] = ("param", k.arg)
+        if skip and caller.pos_params:
+            inv_[("param", caller.pos_params[0])] = ("param", callee.pos_params[0])
+        return inv_
+
+    # the chain of private helpers from fi down to g (each called exactly once by the one above it)
+    chain = [g]
+    for _ in range(4):
+        top = chain[0]
+        if top is fi:
+            break
+        callers = {c_.qual: c_ for c_, _call, _sk in call_sites_of(model, top) if any(c_ is u for u in unit(model, fi))}
+        if len(callers) != 1:
+            raise AnalysisError(f"{top.name} is not called exactly once from {fi.name} or one of its private helpers")
+        chain.insert(0, next(iter(callers.values())))
+    if chain[0] is not fi:
+        raise AnalysisError(f"{g.name} is not reached from {fi.name} through a chain of single calls")
+    from .terms import subst
+
+    inv = None
+    for a_, b_ in zip(chain, chain[1:]):
+        step = hop(a_, b_)
+        if step is None:
+            raise AnalysisError(f"{b_.name} is not called exactly once, directly, from {a_.name}")
+        if inv is None:
+            inv = step
+        else:
+            back = {v: k for k, v in inv.items()}  # parameter of a_ -> term in fi
+            inv = {subst(t_, back): p_ for t_, p_ in step.items()}
+    return g, inv or {}
 
 
 def init_attr(ctx: TermCtx, model: Model, cls, pred: Callable[[Term], bool], what: str) -> str:
